@@ -271,3 +271,7 @@ def run(ctx):
     # "every input that no target produces exists on disk": existence as the snapshot reports it (one stat, the file a path denotes, whatever its time stamp)
     from .shared import import_rules
     import_rules(ctx, r5, "C01", only={"R6"})
+    # ... and the files validated are the ones the workflow file lists: helpers that assemble inputs see one-shot iterables completely
+    from .evalhelpers import cached_witness, report_witness, one_shot_witness
+    report_witness(r5, "src/gwf/workflow.py::collect::one-shot", "src/gwf/workflow.py:1", cached_witness(ctx, "one-shot", one_shot_witness),
+                   "collect() over a generator of records gives what it gives over a list", select=lambda d: d.startswith("collect"))
